@@ -16,7 +16,7 @@ func init() {
 		Rule: "one run = one generated application + input history served first by an unsized twin (OutputSize 0) and then by a sized twin whose OutputSize is drawn around the unlimited length of one of the pages (len-3..len+3), tiny, or generous; " +
 			"every successful Flush of the sized twin must be <= OutputSize bytes and, where both twins are at the same position, must not be a silently truncated version of the unsized page; " +
 			"non-trivial = at least one sized page within 8 bytes of the limit or a render refused for size; distinct = distinct (node, page length - limit) sequences",
-		Runs:       map[string]int{"quick": 50000, "thorough": 1200000},
+		Runs:       map[string]int{"quick": 50000, "thorough": 2500000},
 		MaxSeconds: map[string]int{"quick": 40, "thorough": 900},
 		Run:        runC01,
 		Assumptions: []string{
